@@ -16,7 +16,7 @@ for pid, (a, b) in counts.items():
 res = json.load(open(ROOT + "/seeded/RESULTS.json")) if os.path.exists(ROOT + "/seeded/RESULTS.json") else {}
 rows = []
 for d in sorted(glob.glob(ROOT + "/seeded/*")):
-    if not os.path.isdir(d):
+    if not os.path.isdir(d) or os.path.basename(d).startswith("_"):
         continue
     name = os.path.basename(d)
     m = json.load(open(d + "/meta.json")) if os.path.exists(d + "/meta.json") else {}
